@@ -13,7 +13,8 @@ from twisted.application import service
 from twisted.internet import reactor
 
 from zope.interface import implementer
-from allmydata.interfaces import RIStorageServer, IStatsProducer
+from allmydata.interfaces import RIStorageServer, IStatsProducer, \
+     DataTooLargeError
 from allmydata.util import fileutil, idlib, log, time_format
 import allmydata # for __full_version__
 
@@ -576,6 +577,15 @@ class StorageServer(service.MultiService):
             after applying the vectors.
         """
         remaining_shares = {}
+
+        # Refuse the whole request before touching any share if one of its
+        # writes cannot fit: otherwise the shares written before the
+        # oversized one would stay modified although the request failed.
+        for sharenum in test_and_write_vectors:
+            (testv, datav, new_length) = test_and_write_vectors[sharenum]
+            for (offset, data) in datav:
+                if offset + len(data) > MutableShareFile.MAX_SIZE:
+                    raise DataTooLargeError()
 
         for sharenum in test_and_write_vectors:
             (testv, datav, new_length) = test_and_write_vectors[sharenum]
